@@ -256,6 +256,7 @@ func (s *Session) asTCPConsumer(stream *media.Stream, resp *Response) (err error
 	c.cid = stream.StartConsume(s, media.RTPPacket, "net=rtsp-tcp")
 	// }
 	defer close(c.answered)
+	verifPoint("play.before-answer", s)
 	return s.response(resp)
 }
 
@@ -287,6 +288,7 @@ func (s *Session) asUDPConsumer(stream *media.Stream, resp *Response) (err error
 
 	c.cid = stream.StartConsume(s, media.RTPPacket, "net=rtsp-udp")
 	defer close(c.answered)
+	verifPoint("play.before-answer", s)
 	return s.response(resp)
 }
 
@@ -316,5 +318,6 @@ func (s *Session) asMulticastConsumer(stream *media.Stream, resp *Response) (err
 	s.consumer = c
 
 	ma.AddMember(s)
+	verifPoint("play.before-answer", s)
 	return s.response(resp)
 }
